@@ -1,5 +1,5 @@
 """C01 — x86/x64 encodings: table / database / dispatch clauses (DESIGN.md section 3 / C01)."""
-from lib import cfg, x86tables, regen
+from lib import cfg, x86tables, regen, pcrel
 from lib.regions import Regions
 
 UNIT = "asmjit/x86/x86assembler.cpp"
@@ -26,6 +26,9 @@ def run(chk):
     chk.floor(R + ":enumerators", len(names), 150)
     for n in names:
         chk.ob(R, "x86::_emit|" + n, n in cases, loc=UNIT, detail="no `case InstDB::%s` in the dispatch switch" % n)
+
+    # C01.e RIP-relative displacements are relative to the end of the instruction (shared with C03/C04)
+    pcrel.run(chk, emit, UNIT)
 
     # C01.b rows vs database
     try:
